@@ -115,7 +115,12 @@ pub fn body(inst: &str) {
             must("cosh via cos", || (zc.cosh(), i_times(zc).cos()), |(ch, c)| ceq("cosh z = cos(i z)", ch, c));
         }
         "log" => {
-            must("log_b", || { assume(nonzero(zc)); assume(nonzero(wc)); let lb = wc.ln(); assume(nonzero(lb)); (zc.log(wc), lb, zc.ln()) }, |(l, lb, lz)| ceq("log_b(z) * ln b = ln z", l * lb, lz));
+            // one obligation group ("log_b :: ...") for the evaluation and the identity, so that a base on which the call itself
+            // fails (e.g. a real logarithm of a negative base: NaN in f64) is replayed against the identity
+            match catch(|| { assume(nonzero(zc)); assume(nonzero(wc)); let lb = wc.ln(); assume(nonzero(lb)); (zc.log(wc), lb, zc.ln()) }) {
+                Ok((l, lb, lz)) => ceq("log_b :: log_b(z) * ln b = ln z", l * lb, lz),
+                Err(st) => must_not_stop("log_b :: evaluates for every nonzero z and every base b with ln b != 0", &st),
+            }
         }
         "inv_closed_forms" => {
             // every inverse function against its textbook principal-value closed form, written independently here from
